@@ -21,7 +21,7 @@ def run(ctx):
     ctx.rule("c15: real app (2 validators, custodial + non-custodial servicer, 2 apps, funded accounts, accounts holding 0 / fee-1 / fee / fee+1, "
              "an account with two denominations, a 2-key multisig account), blocks of 1-4 txs. Core: every fee shape {equal, below, above, zero, "
              "two denominations, unsorted, duplicate, zero coin, other denomination only, above balance, 1, two denominations below, double} × "
-             "{simple key, two-denomination account, multisig account, a message whose handler fails}; then random: 15 message kinds × signer "
+             "{simple key, two-denomination account, multisig account, a message whose handler fails}; partially signed multisig transfers; authenticated txs whose signer is not in Msg.GetSigners() (output-address edit signed by the current output address for a funded and an underfunded operator, application transfer to a funded key signed by the current application; operator / old output / new output / old app / new key are distinct accounts with distinct balances); then random: 15 message kinds × signer "
              "relation × ~12% signature defects × 60% non-standard fees × 5% resubmissions; three chains: default multiplier 1, default multiplier 3, and per-type multipliers (send ×5, stake_validator ×2, default ×2). Per tx: dumped "
              "pre-state, real ante handler on a dropped cache, real DeliverTx, balances and a digest of every store. non-trivial = the real ante "
              "handler passed; distinct = distinct trace line")
